@@ -129,7 +129,8 @@ def generate(rng):
             s0 = rng.choice([1.1, 1.1, 100.0, 25.0])   # markets quoted around 100: gradient norms far above 1
             init = {"HestonStock": [s0, 0.05], "RoughBergomiStock": [s0, 0.05]}.get(pkind, [s0])
         oname = rng.choice(["SGD", "Adam", "Adadelta", "SGDm"])
-        ops.append({"op": "fit", "n_epochs": rng.choice([0, 1, 2, 2, 3]), "n_paths": rng.npaths([1, 2, 3, 6]), "n_times": rng.choice([1, 1, 2, 3]),
+        big_scale = init is not None and init[0] > 10
+        ops.append({"op": "fit", "n_epochs": (rng.choice([0, 1, 1]) if (big_scale and oname in ("SGD", "SGDm")) else rng.choice([0, 1, 2, 2, 3])), "n_paths": rng.npaths([1, 2, 3, 6]), "n_times": rng.choice([1, 1, 2, 3]),
                     "validation": rng.chance(0.7), "optimizer": oname, "as_instance": rng.chance(0.4),
                     "instance_params": rng.choice(["model", "hedger"]), "init_state": init, "hedge": hedge,
                     "ambient": rng.choice([None, None, "no_grad", "enable_grad"]), "torch_seed": rng.seed31(),
@@ -271,6 +272,11 @@ def _fit_op(world, program, op, h, d, p0, mspec, hspec, stats, hist, seq):
         with _grad_ctx(op.get("ambient")):
             history = h.fit(d, **kw)
     except Exception as e:
+        diverged = any(not bool(torch.isfinite(q).all()) for q in h.model.parameters() if not nn.parameter.is_lazy(q))
+        if diverged:
+            # plain SGD on a market quoted around 100 can blow the parameters up; a criterion then raises on the NaN P&L.
+            # That is a diverged training run, not a protocol violation.
+            raise Inconclusive("training diverged (non-finite parameters): %r" % (e,))
         raise Violation(ID, "op_raised", "fit:%s" % type(e).__name__, {
             "error": repr(e)[:400], "lazy": lazy, "inputs": hspec["inputs"], "hedge": op.get("hedge"), "op": op}, seq)
     finally:
